@@ -41,7 +41,14 @@ ASSUMPTIONS = [
     "token sits on the last line)",
     "python's default recursion limit (1000) is the environment the generators run in; RecursionError counts as an "
     "escaping exception",
+    "the statement enumerates the rules an accepted schema must satisfy (unique declarations, dangling/cyclic "
+    "references, duplicate attributes after expansion, arities, defaults vs type/arity); the payload of a min=/max= "
+    "facet is not among them, so an accepted bare (min)/(max) facet is only COUNTED "
+    "(out_of_scope:accepted-schema-breaks-rule:min-max-facet-without-numeric-value), never a violation",
 ]
+
+# rules of the reference validator that no clause of the C41 statement covers: counted, never reported
+OUT_OF_STATEMENT_RULES = ("min-max-facet-without-numeric-value",)
 
 _STATE = {}
 
@@ -82,7 +89,9 @@ def load():
     # ---- named condition functions ---------------------------------------------------------------
     def returned_schema_satisfies_documented_rules(result):
         counts["post_rules"] += 1
-        last["broken"] = R.revalidate(result)
+        broken = R.revalidate(result) or []
+        last["oos"] = [b for b in broken if b[0] in OUT_OF_STATEMENT_RULES]
+        last["broken"] = [b for b in broken if b[0] not in OUT_OF_STATEMENT_RULES]
         return not last["broken"]
 
     def returned_tables_hold_every_declaration(text, result):
@@ -116,6 +125,7 @@ def load():
     @icontract.ensure(outcome_is_schema_or_schema_error, error=TotalityBreach)
     def attempt(text):
         t0 = time.perf_counter()
+        last["oos"] = None
         try:
             schema = checked(text)
             out = {"kind": "schema", "schema": schema}
@@ -128,6 +138,7 @@ def load():
                 raise
             out = {"kind": "other:" + type(e).__name__, "trace": traceback.format_exc()[-1500:]}
         out["dt"] = time.perf_counter() - t0
+        out["oos"] = last.get("oos") if out["kind"] in ("schema", "contract") else None
         return out
 
     _STATE.update(M=M, attempt=attempt, counts=counts, checked=checked, raw=raw_parse)
@@ -136,7 +147,7 @@ def load():
 
 # --------------------------------------------------------------------------------------------------- judging
 
-KNOWN_RULE_GAPS = ("int-default-not-integral", "min-max-facet-without-numeric-value")
+KNOWN_RULE_GAPS = ("int-default-not-integral",)
 
 
 def judge(P, text, cat, expect=None, label=None, model=None, line_of=None):
@@ -177,6 +188,8 @@ def judge(P, text, cat, expect=None, label=None, model=None, line_of=None):
         P.case("%s/line" % cat)
         return "line"
     P.note_max("parse_seconds", out["dt"])
+    for rule in sorted({b[0] for b in out.get("oos") or []}):
+        P.count("out_of_scope:accepted-schema-breaks-rule:" + rule)
     if out["kind"] == "contract":
         if out["which"] == "DeclarationLoss":
             P.violation("accepted-with-declaration-lost-or-duplicated", dict(detail, ndecl=out["ndecl"]))
@@ -188,7 +201,9 @@ def judge(P, text, cat, expect=None, label=None, model=None, line_of=None):
             P.case("rule/%s/accepted-unsound" % label)   # the mutator was applied (and the parser wrongly accepted it)
         return "unsound"
     accepted = out["kind"] == "schema"
-    if expect == "reject" and accepted:
+    if expect == "reject" and accepted and label in OUT_OF_STATEMENT_RULES:
+        P.count("out_of_scope:rule-breaking-mutation-accepted:" + label)
+    elif expect == "reject" and accepted:
         P.violation("rule-breaking-mutation-accepted:" + label, detail)
     elif expect == "accept" and not accepted:
         P.violation("valid-schema-rejected", dict(detail, line=out["line"], message=out["message"]))
